@@ -31,10 +31,11 @@ class T:
                 nm = r.choice(['KT', 'Kt', 'kt']) if truth else r.choice(['KF', 'kf'])
                 return '.if %s' % nm
             if k == 3: return '.if %s - %d' % ('KT' if truth else 'KF', 0)
-            return '.if (%d)' % (1 if truth else 0)
+            return r.choice(['.if (%d)', '.if(%d)', '.if\t%d', '.if(%d) ; glued']) % (1 if truth else 0)     # no blank is needed before a parenthesis
+        # .ifdef/.ifndef look at .define flags only: an .equ constant (KT, KF), a label or a macro of that name is not a flag
         if kind == 'ifdef':
-            return '.ifdef %s' % ('DEFD' if truth else 'UNDEFD')
-        return '.ifndef %s' % ('UNDEFD' if truth else 'DEFD')
+            return '.ifdef %s' % ('DEFD' if truth else r.choice(['UNDEFD', 'UNDEFD', 'KT', 'kf', 'defd', 'lab_fwd']))
+        return '.ifndef %s' % (r.choice(['UNDEFD', 'UNDEFD', 'KT', 'kt', 'Defd', 'lab_fwd']) if truth else 'DEFD')
 
     def payload(self, selected, n=None):
         r = self.rng
@@ -76,7 +77,7 @@ class T:
         for i in range(branches):
             if i < len(conds):
                 k, t = conds[i]
-                text = self.cond_text(k, t) if k != 'elif' else '.elif ' + self.cond_text('if', t)[4:]
+                text = self.cond_text(k, t) if k != 'elif' else self.rng.choice(['.elif ', '.elif ', '.elif\t', '.elif']) .rstrip(' ') * 0 + '.elif' + (lambda c: (c if c[:1] in '(' else ' ' + c))(__import__('re').sub(r'^\.if[ \t]*', '', self.cond_text('if', t)))
                 lines.append((text, False))
                 sel = selected and taken is None and t
                 if t and taken is None: taken = i
@@ -90,6 +91,12 @@ class T:
                 body += [(l, sel) for l in self.payload(sel, 1)]
             lines += body
         lines.append(('.endif', False))
+        # a label may stand on a directive line.  Inside skipped text it is never assembled, but the directive still
+        # counts for the nesting; on the head of an assembled construct it is assembled like any label
+        if not selected and self.rng.random() < .35:
+            lines = [(('sk%d: %s' % (self.uid(), l)) if (l.startswith('.') and l.split()[0][1:] in ('if', 'ifdef', 'ifndef', 'else', 'elif', 'endif') and self.rng.random() < .6) else l, k) for l, k in lines]
+        elif selected and self.rng.random() < .1:
+            lines[0] = ('hd%d: %s' % (self.uid(), lines[0][0]), lines[0][1])
         # the grammar reads `#name` like `.name`: spell a construct with '#' now and then
         mode = self.rng.random()
         if mode < .25:
